@@ -283,4 +283,22 @@ def c18(tier):
           t["chart"]["host"], t["chart"]["spied"], ref[0]["chart"]["host"], ref[0]["chart"]["spied"]),
           {"chart": t["chart"], "ops": t["ops"], "other_chart": ref[0]["chart"], "other_ops": ref[0]["ops"]})
   run.add(base_cases=len(groups), configurations=len(C18_CONFIGS), cross_configuration_disagreements=disagree)
+  # the active-object host: the same poster programs with un-decorated states, decorated states, and decorated states with
+  # live spy/trace on, under controlled schedules; every execution must conform to AO.tla (dispatch of everything posted, in order)
+  from harness import aocheck
+  results = aocheck.run_batch(600 if tier == "quick" else 12000, kinds=("random", "pct"), caps=(5, 8), force="c18")
+  verdicts, st, trn = aocheck.validate_all(results)
+  by = dict(results)
+  for tid, v in verdicts.items():
+    if v.get("stuck"):
+      raise common.MachineryError("AO trace %s not consumed" % tid)
+    for c in v.get("bad", []):
+      r = by[tid]
+      run.violation("ao-host:" + c, "active object (spied=%s live=%s) execution %d rejected: %s; outcome=%s errors=%s dispatched=%s" % (
+        r["cfg"]["spied"], r["cfg"].get("live"), tid, c, r["outcome"], [e[:2] for e in r["errors"][:1]], r["dispatched"]),
+        {"cfg": r["cfg"], "schedule": r["schedule"], "verdict": v, "outcome": r["outcome"], "errors": r["errors"][:1], "ops": r["ops"][-40:]})
+  run.add(active_object_executions=len(results), states=st, transitions=trn,
+          active_object_configs={"plain": sum(1 for _, r in results if not r["cfg"]["spied"]),
+                                 "spied": sum(1 for _, r in results if r["cfg"]["spied"] and not r["cfg"].get("live")),
+                                 "spied+live": sum(1 for _, r in results if r["cfg"].get("live"))})
   return run.finish()
